@@ -103,7 +103,7 @@ def check(sc):
         return batt._current_charge - c0
 
     def on_call(i, op, pre, post, rate, batt):
-        if rate is None and op["op"] == "reset_to":
+        if rate is None and op["op"] in ("reset_to", "reset_refused"):
             return
         if rate is None and op["op"] == "roundtrip":
             out.probe("json_restart")
